@@ -468,7 +468,7 @@ impl<'a> Gen<'a> {
 
     fn word(&mut self) -> String {
         if self.r.below(1000) < u64::from(self.sw.long_scalar) {
-            let len = *self.r.pick(&[6usize, 7, 8, 9, 14, 15, 16, 17, 31, 63, 64, 65, 127, 128, 129, 200]);
+            let len = *self.r.pick(&[6usize, 7, 8, 9, 14, 15, 16, 17, 31, 32, 63, 64, 65, 126, 127, 128, 129, 200, 255, 256, 999, 1000, 1001]);
             let mut s = String::new();
             for i in 0..len {
                 s.push((b'a' + ((i * 7 + len) % 26) as u8) as char);
@@ -524,7 +524,8 @@ impl<'a> Gen<'a> {
     fn dq(&mut self) -> String {
         let mut s = String::from("\"");
         // pad so that the escape lands at a drawn offset (modulo the capacities that matter)
-        let pad = self.r.usize(20);
+        // so that an escape lands at every offset modulo the capacities in play
+        let pad = if self.r.chance(1, 4) { *self.r.pick(&[55usize, 60, 61, 62, 63, 64, 65, 119, 123, 124, 125, 126, 127, 128, 129]) } else { self.r.usize(20) };
         for i in 0..pad {
             s.push((b'a' + (i % 26) as u8) as char);
         }
